@@ -6,7 +6,8 @@ import numpy as np
 import pandas as pd
 
 LAYOUTS = ('single_deck', 'two_decks', 'three_decks', 'sparse', 'multi_hit', 'unequal_sampling', 'coincident', 'all_nan',
-           'single_hit', 'identical_heights', 'two_values', 'vv', 'high_and_low', 'thick', 'type_gt3', 'many_ceilos')
+           'single_hit', 'identical_heights', 'two_values', 'vv', 'high_and_low', 'thick', 'type_gt3', 'many_ceilos',
+           'missing_lower_types', 'repeated_type1')
 
 
 def _df(rows):
@@ -30,7 +31,7 @@ def scene(k: int, seed: int = 0):
     decks = {'single_deck': [2000], 'two_decks': [1500, 4200], 'three_decks': [800, 2600, 7000], 'sparse': [3000],
              'multi_hit': [1200, 2500], 'unequal_sampling': [1800, 5000], 'coincident': [2200], 'identical_heights': [3300],
              'two_values': [1000], 'vv': [600], 'high_and_low': [900, 14000, 30000], 'thick': [2000], 'type_gt3': [500, 1500, 2500, 3500, 4500],
-             'many_ceilos': [2500, 6000]}.get(layout, [])
+             'many_ceilos': [2500, 6000], 'missing_lower_types': [1200, 2600, 4000], 'repeated_type1': [1500, 3000]}.get(layout, [])
     for ci, c in enumerate(names):
         n_c = nt if layout != 'unequal_sampling' else max(1, nt // (ci + 1))
         offs = 0.0 if layout == 'coincident' else rng.uniform(0, span / max(n_c, 1) / 3)
@@ -54,7 +55,8 @@ def scene(k: int, seed: int = 0):
             hit_no = 0
             for di, base in enumerate(decks):
                 p = {'sparse': 0.15, 'single_deck': 0.9}.get(layout, 0.7)
-                if layout in ('multi_hit', 'type_gt3', 'three_decks', 'two_decks', 'high_and_low', 'many_ceilos', 'unequal_sampling'):
+                if layout in ('multi_hit', 'type_gt3', 'three_decks', 'two_decks', 'high_and_low', 'many_ceilos', 'unequal_sampling',
+                              'missing_lower_types', 'repeated_type1'):
                     want = rng.random() < p
                 else:
                     want = (di == 0 and rng.random() < p)
@@ -69,7 +71,14 @@ def scene(k: int, seed: int = 0):
                     h = base + rng.uniform(0, 1500)
                 else:
                     h = base + rng.gauss(0, rng.choice([5, 30, 80]))
-                rows.append((c, dt, max(h, 0.0), hit_no))
+                if layout == 'missing_lower_types':
+                    # documented as a warning only: a type-n hit without the lower types at that time step
+                    rows.append((c, dt, max(h, 0.0), di + 1))
+                elif layout == 'repeated_type1':
+                    # several type-1 rows with distinct heights on one (ceilo, dt): accepted by the input checker
+                    rows.append((c, dt, max(h, 0.0), 1))
+                else:
+                    rows.append((c, dt, max(h, 0.0), hit_no))
             if hit_no == 0:
                 rows.append((c, dt, np.nan, 0))
     if rng.random() < 0.3:
